@@ -27,6 +27,7 @@ func runC12(c *Ctx, r *Report) {
 	// cached there by an earlier remote_ip matcher would survive the replacement), and the address they test is
 	// the connection's live RemoteAddr/LocalAddr
 	c06R5(c, r, "C12.R8")
+	c14TablesFor(c, r, "C12.R10", "proxy_protocol") // the route with the handler is entered for whole, split and near-miss v1/v2 headers exactly as the PROXY protocol says
 	c14R4(c, r, "C12.R9")
 }
 
